@@ -416,6 +416,13 @@ func runC15(c *Ctx, wi int, seed uint64) {
 					genuine.ResultMsgs[i].Signature = ed25519.Sign(other.KeyPair.Priv, genuine.ResultMsgs[i].Data)
 				}
 				label = "genuine:messages-pre-signed-by-another-participant"
+			} else if r.Intn(3) == 0 && len(genuine.ResultMsgs) > 0 {
+				// fields of the returned operation the node does not bind (round field, recipient, creation time)
+				// differ from what it issued: what is posted is still exactly the messages inside the result
+				genuine.DKGIdentifier = strings.Repeat("b", 64)
+				genuine.To = "somebody else"
+				genuine.CreatedAt = genuine.CreatedAt.Add(-365 * 24 * time.Hour)
+				label = "genuine:unbound-operation-fields-altered"
 			}
 			if submitAndJudge(c, w, nd, c15Sub{Label: label, Op: genuine, Expect: "accept"}, wit) {
 				retired[nd.Idx] = append(retired[nd.Idx], genuine)
